@@ -770,8 +770,8 @@ def campaign_e2e(ck: Check, n: int, n_collide: int, n_gql: int, n_hide: int = 60
     camp = ck.campaign("e2e: generate() → import the module → resolve forward references of every model → no member hides a class its annotation names (+ one conforming instance for the member-named-like-its-class family); static scope analysis (5 kinds, msgspec static only)")
     t0 = time.time()
     rng = ck.rng.fork("e2e")
-    for doc, kind, opts, target, it in E2E_CORPUS:
-        e2e_case(ck, camp, doc, kind, opts, target, it, ["corpus"])
+    for doc, kind, opts, target, it, *rest in E2E_CORPUS:
+        e2e_case(ck, camp, doc, kind, opts, target, it, ["corpus"], instance=rest[0] if rest else None)
     for i in range(n + n_collide):
         collide = i >= n
         doc, feats = schemagen.random_document(rng, collide=collide)
@@ -820,6 +820,16 @@ E2E_CORPUS = [
       "type": "object", "properties": {"a": {"$ref": "#/definitions/A"}}}, "dataclasses.dataclass", {}, None, "jsonschema"),
     ("type A { B: B }\ntype B { x: Int }\n", "pydantic_v2.BaseModel", {}, None, "graphql"),
     ("type A { b: B  id: ID }\ntype B { x: Int }\n", "pydantic_v2.BaseModel", {}, None, "graphql"),
+    # former witnesses of C02-F1 (repaired: Parser.__alias_shadowed_imports / __change_field_name): they must hold, in every executable kind
+    *[({"title": "Model", "type": "object", "properties": {"str": {"type": "string"}, "n": {"type": "array", "items": {"type": "string"}}}}, k, {}, None, "jsonschema",
+       {"str": "x", "n": ["y"]}) for k in e2e.MODEL_KINDS],
+    *[({"title": "Model", "type": "object", "properties": {"int": {"type": "string"}, "float": {"type": "number"}, "n": {"type": "integer"}, "bool": {"type": "boolean"}}}, k, {}, None,
+       "jsonschema", {"int": "x", "float": 1.5, "n": 3, "bool": True}) for k in e2e.MODEL_KINDS],
+    *[({"title": "Model", "type": "object", "properties": {"Any": {}, "m": {"type": "object", "additionalProperties": True}, "l": {"type": "array", "items": {}}}}, k, o, None,
+       "jsonschema", {"Any": 1, "m": {"a": 2}, "l": [1, "x"]}) for k in e2e.MODEL_KINDS for o in ({}, {"use_union_operator": True})],
+    *[({"title": "Model", "type": "object", "properties": {"date": {"type": "string", "format": "date"}, "ds": {"type": "array", "items": {"type": "string", "format": "date"}}}}, k, {}, None,
+       "jsonschema", {"date": "2020-01-02", "ds": ["2020-01-03"]}) for k in e2e.MODEL_KINDS],
+    *[("type A { B: B  String: String  items: [B] }\ntype B { x: Int  A: [A!] }\n", k, {}, None, "graphql") for k in e2e.MODEL_KINDS],
 ]
 
 
